@@ -25,6 +25,7 @@ import (
 	"os"
 	"os/exec"
 	"path/filepath"
+	"regexp"
 	"sort"
 	"strings"
 	"time"
@@ -344,7 +345,15 @@ func fnOf(f object.Function) fnInfo {
 	if f.Name != nil {
 		nm = f.Name.Literal()
 	}
-	return fnInfo{strings.ReplaceAll(dumpListNC(f.Parameters), " ", ""), strings.ReplaceAll(DumpNoComments(f.Body), " ", ""), nm, f.Variadic}
+	return fnInfo{normDump(dumpListNC(f.Parameters)), normDump(DumpNoComments(f.Body)), nm, f.Variadic}
+}
+
+// a function literal without parameters holds a nil or an empty parameter slice depending on whether the tree
+// went through ast.Modify (macro expansion copies the slice): not a difference of the program
+var nilParams = regexp.MustCompile(`\(Fn (\d+) (\S+) (-|\(\d+ \S+\)) nil `)
+
+func normDump(d string) string {
+	return strings.ReplaceAll(nilParams.ReplaceAllString(d, "(Fn $1 $2 $3 [] "), " ", "")
 }
 
 func dumpListNC(l []ast.Node) string {
@@ -385,7 +394,7 @@ func fnRoundTrip(f object.Function, line []byte) string {
 	if fl.Name != nil {
 		nm = fl.Name.Literal()
 	}
-	got := fnInfo{strings.ReplaceAll(dumpListNC(fl.Parameters), " ", ""), strings.ReplaceAll(DumpNoComments(fl.Body), " ", ""), nm, fl.Variadic}
+	got := fnInfo{normDump(dumpListNC(fl.Parameters)), normDump(DumpNoComments(fl.Body)), nm, fl.Variadic}
 	if got == want {
 		return "same"
 	}
@@ -409,7 +418,7 @@ func knownBodyPattern(f object.Function) string {
 	return ""
 }
 
-var sampleArgs = []string{"1", "-2", "2.5", `"s"`, "[1,2]", `{"a":1}`, "true", "nil", "0", "x=>x+1", "10", `""`}
+var sampleArgs = []string{"1", "-2", "2.5", `"s"`, "[1,2]", `{"a":1}`, "true", "nil", "0", "[]", "10", `""`}
 
 // ------------------------------------------------------------------ the direct oracle on one environment
 
@@ -448,6 +457,8 @@ var seenFunc = map[string]bool{}
 func checkEnv(c *Ctx, e envCase, emit bool) {
 	c.Eval()
 	rp := e.replay()
+	nfail0 := len(c.Failures)
+	reported := func() bool { return len(c.Failures) > nfail0 }
 	s1, out1 := build(e.stmts)
 	names := globalNames(s1)
 	orig := map[string]object.Object{}
@@ -510,7 +521,7 @@ func checkEnv(c *Ctx, e envCase, emit bool) {
 		}
 	}
 	// the value-length limit: the limited file is the full file minus whole lines; a missing line is too long
-	if e.maxLen > 0 {
+	if e.maxLen > 0 && !reported() {
 		j := 0
 		for _, l := range fullLines {
 			if j < len(limLines) && bytes.Equal(limLines[j], l) {
@@ -577,6 +588,7 @@ func checkEnv(c *Ctx, e envCase, emit bool) {
 	}
 	ways := []way{{"autoload", sA, outA, ea}, {"load", sB, outB, strings.Join(errsB, "; ")}}
 	missA := 0
+	dataFailed := false
 	for wi, w := range ways {
 		got := map[string]object.Object{}
 		for _, n := range globalNames(w.s) {
@@ -588,7 +600,6 @@ func checkEnv(c *Ctx, e envCase, emit bool) {
 			}
 		}
 		miss := 0
-		firstCause := ""
 		for _, n := range savedNames {
 			o := orig[n]
 			if e.maxLen > 0 && !limited[n] {
@@ -607,9 +618,7 @@ func checkEnv(c *Ctx, e envCase, emit bool) {
 					continue
 				}
 				miss++
-				if wi == 1 && firstCause == "" {
-					firstCause = d
-				}
+				dataFailed = true
 				if d == "missing" {
 					if wi == 1 && w.err != "" {
 						continue // reported once below as an aborted whole-file load
@@ -661,22 +670,30 @@ func checkEnv(c *Ctx, e envCase, emit bool) {
 		}
 		if wi == 1 && w.err != "" && miss > missA {
 			cause := "other"
-			for _, n := range savedNames {
-				o := orig[n]
-				if _, isF := o.(object.Function); !isData(o) && !isF {
-					cause = otherClass(o)
-					break
+			probe, _ := newState()
+			for _, l := range limLines {
+				if _, err := eval.EvalString(probe, string(l), false); err == nil {
+					continue
 				}
-				if f, isF := o.(object.Function); isF && fnRoundTrip(f, lineFor(limLines, n)) == "rejected" {
-					cause = "function:" + fnCause(f)
-					break
+				o, ok := orig[lineName(l)]
+				switch {
+				case !ok:
+				case isData(o):
+					cause = "data-value"
+				default:
+					if f, isF := o.(object.Function); isF {
+						cause = "function:" + fnCause(f)
+					} else {
+						cause = otherClass(o)
+					}
 				}
+				break
 			}
 			c.Fail("whole-file-load-stops-at-unloadable-line:"+cause, rp, fmt.Sprintf("load() error %q: %d bindings not restored (auto-load: %d)", w.err, miss, missA))
 		}
 		// ---- save again: same bytes; and a second cycle
 		re, _ := saveBytes(w.s, e.maxLen)
-		if !bytes.Equal(re, lim) && miss == 0 && w.err == "" {
+		if !bytes.Equal(re, lim) && !reported() {
 			c.Fail("resave-differs", rp, fmt.Sprintf("%s: %q then %q", w.tag, lim, re))
 		}
 		cycles := 1
@@ -691,8 +708,8 @@ func checkEnv(c *Ctx, e envCase, emit bool) {
 			}
 			nb, _ := saveBytes(s2, e.maxLen)
 			if !bytes.Equal(nb, prev) {
-				if bytes.Equal(prev, lim) && (miss > 0 || w.err != "") {
-					break // already reported as a reload failure
+				if reported() {
+					break // a consequence of a reload failure already reported for this environment
 				}
 				c.Fail("save-load-cycle-not-stable", rp, fmt.Sprintf("cycle %d: %q then %q", k+2, prev, nb))
 				break
@@ -701,7 +718,12 @@ func checkEnv(c *Ctx, e envCase, emit bool) {
 		}
 		_ = ps
 	}
-	// ---- behaviour of every reloaded function on sample arguments (last: calls may change globals)
+	// ---- behaviour of every reloaded function on sample arguments (last: calls may change globals).
+	// Not when the limit skipped a binding: a function reading a skipped global cannot behave the same.
+	// Nor when a data global was not reproduced (reported above): functions reading it differ as a consequence.
+	if len(limLines) != len(fullLines) || dataFailed {
+		return
+	}
 	for _, n := range savedNames {
 		f, isF := orig[n].(object.Function)
 		if !isF || (e.maxLen > 0 && !limited[n]) {
@@ -721,7 +743,7 @@ func checkEnv(c *Ctx, e envCase, emit bool) {
 			for _, w := range ways[:1] {
 				r2 := callObs(w.s, w.out, call)
 				if r1 != r2 {
-					c.Fail(fnSig(f, n, "behaviour-changed"), rp, fmt.Sprintf("%s: %s gives %s, after reload %s", w.tag, call, r1, r2))
+					c.Fail(fnSig(f, n, "behaviour-changed"), rp, fmt.Sprintf("%s: %s gives %s, after reload %s (%s)", w.tag, call, r1, r2, lastErrs))
 				}
 			}
 			c.Count("function-call")
@@ -796,8 +818,11 @@ func callObs(s *eval.State, out *bytes.Buffer, call string) string {
 	} else if len(errs) > 0 {
 		cls = "e"
 	}
+	lastErrs = strings.Join(errs, "; ")
 	return cls + ":" + Hx([]byte(o))
 }
+
+var lastErrs string
 
 // ------------------------------------------------------------------ correspondence cases
 
